@@ -10,7 +10,7 @@ MCPos      == -1..10
 \* "", "b", CJK+"a", "3" (a text that is also passed as the number 3.0)
 MCNewTexts == {<<>>, <<2>>, <<8, 1>>, <<13>>}
 MCFindLen  == 2
-MCFmtMax   == 6
+MCFmtMax   == 5
 \* <<k, j>> = k / 10^j: whole numbers (3 and 3.0), ties at every scale
 \* (0.5, 2.5, 0.125, 0.005, 1.005, 0.145), carries (9.995, 999.5), thousands
 MCNums == {<<0, 0>>, <<3, 0>>, <<12, 0>>, <<120, 0>>, <<-7, 0>>, <<1234567, 0>>,
